@@ -19,12 +19,14 @@ def specs(rng, tier, count):
     combos = [(v, g) for v in KC.VARIANTS for g in ("plain", "time", "latlon", "latlon_time")]
     for i in range(count):
         v, g = combos[i % len(combos)]
-        dim = 1 + (i // len(combos)) % 3 if g == "plain" else None
+        j = i // len(combos)
+        dim = 1 + j % 3 if g == "plain" else None
+        gm = [1, 0, 2, 3][(j // 3) % 4] if g == "plain" else [1, 0, 2, 3][j % 4]
         # zero measurement error: no nugget, or exact mode with a nugget
         mode = i % 3
         spec = KC.gen_spec(rng, variant=v, geo=g, dim=dim, tier=tier, exact=(mode == 2),
                            nugget=(0.0 if mode < 2 else float(np.round(rng.uniform(0.05, 0.5), 3))),
-                           norm_prob=0.5, mean_nonzero=(v == "Simple" and i % 2 == 0))
+                           norm_prob=0.5, mean_nonzero=(v == "Simple" and i % 2 == 0), geom_mode=gm)
         if mode < 2:
             spec["cond_err"] = "nugget" if mode == 0 else 0.0
         out.append(spec)
@@ -84,7 +86,7 @@ def run(ctx, only=None):
         if only is not None:
             one_case(ctx, drv, rng, only, stats)
         else:
-            n = 60 if ctx.tier == "quick" else 600
+            n = 140 if ctx.tier == "quick" else 2400
             for spec in specs(rng, ctx.tier, n):
                 one_case(ctx, drv, rng, spec, stats)
     finally:
